@@ -431,7 +431,7 @@ pub fn run_sdd_caches(case: &SddCacheCase, st: &mut Stats) -> CaseResult {
             };
             // re-running an op means: same arguments (by pool index) -> must give the pointer recorded at idx
             let saved_len = run.pool.len();
-            let mut prefix = SddRun { b: &b, pool: run.pool[..idx].to_vec(), labels: run.labels.clone(), forced_operands: None };
+            let mut prefix = SddRun { b: &b, pool: run.pool[..idx].to_vec(), labels: run.labels.clone(), forced_operands: None, emb: run.emb };
             if matches!(old, SOp::AndDisjoint(..) | SOp::OrDisjoint(..) | SOp::AndDisjointNeg(..) | SOp::OrDisjointNeg(..)) && old_args.len() == 2 {
                 prefix.forced_operands = Some((old_args[0], old_args[1]));
             }
@@ -564,7 +564,7 @@ pub fn run_semantic_cache(case: &SddCacheCase, st: &mut Stats) -> CaseResult {
                 Some(s) => s.clone(),
                 None => continue,
             };
-            let mut prefix = SddRun { b: &b, pool: run.pool[..idx].to_vec(), labels: run.labels.clone(), forced_operands: None };
+            let mut prefix = SddRun { b: &b, pool: run.pool[..idx].to_vec(), labels: run.labels.clone(), forced_operands: None, emb: run.emb };
             if matches!(old, SOp::AndDisjoint(..) | SOp::OrDisjoint(..) | SOp::AndDisjointNeg(..) | SOp::OrDisjointNeg(..)) && old_args.len() == 2 {
                 prefix.forced_operands = Some((old_args[0], old_args[1]));
             }
